@@ -71,7 +71,11 @@ func vC12CompareModel(p Point, m vC12Point, def time.Time) *vC12Err {
 		}
 		var wt int64
 		if m.hasTS {
-			wt = m.ts * vC12Mult(m.prec)
+			prod, ok := vC12TimeProduct(m.ts, m.prec)
+			if !ok {
+				return vC12Fail("out-of-range-time-accepted", "timestamp %d at precision %q is %s ns, outside the valid range, but the line was accepted", m.ts, m.prec, prod)
+			}
+			wt = prod.Int64()
 		} else {
 			wt = vC12FloorTo(def.UnixNano(), vC12Mult(m.prec))
 		}
@@ -126,10 +130,30 @@ func TestVerifC12ModelFirst(t *testing.T) {
 		if pn != nil {
 			rt.Fatalf("%s parser panicked on %q: %v", verifkit.Sig("parser-panic"), line, pn)
 		}
+		if m.hasTS && !m.tsValid {
+			// ts*multiplier is outside [MinNanoTime, MaxNanoTime]: the line must be rejected
+			if err == nil || len(pts) != 0 {
+				prod, _ := vC12TimeProduct(m.ts, m.prec)
+				got := int64(0)
+				if len(pts) > 0 {
+					got = pts[0].UnixNano()
+				}
+				rt.Fatalf("%s line %q (precision %s): timestamp is %s ns, outside [%d, %d], but %d point(s) came back (time %d), err %v", verifkit.Sig("out-of-range-time-accepted"), line, m.prec, prod, MinNanoTime, MaxNanoTime, len(pts), got, err)
+			}
+			classes["precision:"+m.prec] = true
+			classes["time:out-of-range-rejected:"+m.prec] = true
+			cl := vC12SortedClasses(classes)
+			st.Case(true, "out-of-range/"+m.prec+"/"+fmt.Sprint(m.ts), cl...)
+			st.Sample(nil)
+			return
+		}
 		if err != nil || len(pts) != 1 {
 			rt.Fatalf("%s valid line %q (precision %s) gave %d points, err %v", verifkit.Sig("valid-line-rejected"), line, m.prec, len(pts), err)
 		}
 		p := pts[0]
+		if classes["time:range-boundary"] {
+			classes["time:range-boundary-accepted:"+m.prec] = true
+		}
 		if e := vC12CompareModel(p, m, def); e != nil {
 			rt.Fatalf("%s line %q: %s", verifkit.Sig(e.sig), line, e.msg)
 		}
@@ -221,7 +245,7 @@ func vC12Soup(rt *rapid.T, label string, pieces []string, lo, hi int, canon *str
 }
 
 // vC12SoupLine builds one text-first line. canon receives the token-class signature.
-func vC12SoupLine(rt *rapid.T, canon *strings.Builder, classes map[string]bool) string {
+func vC12SoupLine(rt *rapid.T, canon *strings.Builder, classes map[string]bool, prec string) string {
 	var line strings.Builder
 	line.WriteString(vC12Soup(rt, "m", vC12SoupName, 1, 4, canon))
 	nt := rapid.IntRange(0, 3).Draw(rt, "nt")
@@ -269,7 +293,12 @@ func vC12SoupLine(rt *rapid.T, canon *strings.Builder, classes map[string]bool) 
 			classes["value:name-soup"] = true
 		}
 	}
-	switch rapid.IntRange(0, 5).Draw(rt, "tskind") {
+	switch rapid.IntRange(0, 7).Draw(rt, "tskind") {
+	case 6, 7:
+		// at and around the range ends and the 2^64 wrap points of this precision
+		line.WriteString(" " + fmt.Sprint(rapid.SampledFrom(vC12BoundaryTimes(prec)).Draw(rt, "tsboundary")))
+		canon.WriteString(" B")
+		classes["time:range-boundary"] = true
 	case 0:
 		canon.WriteString(" -")
 	case 1, 2:
@@ -299,8 +328,8 @@ func TestVerifC12TokenSoup(t *testing.T) {
 	rapid.Check(t, func(rt *rapid.T) {
 		classes := map[string]bool{}
 		var canon strings.Builder
-		line := vC12SoupLine(rt, &canon, classes)
 		prec := rapid.SampledFrom(vC12Precisions).Draw(rt, "prec")
+		line := vC12SoupLine(rt, &canon, classes, prec)
 		if vC12HasEvenBackslashEquals([]byte(line)) {
 			st.Exclude(vC12SigFieldKeyBackslash)
 			rt.Skip("known finding shape")
@@ -393,6 +422,7 @@ func TestVerifC12Request(t *testing.T) {
 		var lines []ln
 		for i := 0; i < nValid; i++ {
 			m := vC12DrawPoint(rt, classes, prec)
+			vC12ForceValidTime(&m)
 			lines = append(lines, ln{text: vC12Render(rt, m, vC12Perm(rt, len(m.tags)), classes), kind: "valid", model: m})
 		}
 		var lastBad *vC12Bad
@@ -550,6 +580,7 @@ func TestVerifC12Mutate(t *testing.T) {
 			n := rapid.IntRange(1, 3).Draw(rt, "nLines")
 			for i := 0; i < n; i++ {
 				m := vC12DrawPoint(rt, map[string]bool{}, prec)
+				vC12ForceValidTime(&m)
 				if i > 0 {
 					buf = append(buf, '\n')
 				}
@@ -660,6 +691,7 @@ func TestVerifC12BinaryDecoder(t *testing.T) {
 		switch rapid.IntRange(0, 5).Draw(rt, "mode") {
 		case 0, 1:
 			m := vC12DrawPoint(rt, map[string]bool{}, "")
+			vC12ForceValidTime(&m)
 			line := vC12Render(rt, m, vC12Perm(rt, len(m.tags)), map[string]bool{})
 			pts, err, pn := vC12Parse([]byte(line), vC12RefTime, m.prec)
 			if pn != nil || err != nil || len(pts) != 1 {
